@@ -801,8 +801,8 @@ class PhaseField(_Simu):
 
         # end cases ----------------------------------------------------
 
-        # flat nodal vectors (Nn * dof_n,) cannot be told from element values when Nn * dof_n == Ne
-        storedOnNodes = True if result in ["displacement"] else None
+        # the storage is known here; sizes alone cannot tell it when Nn * dof_n == Ne or Nn == Ne
+        storedOnNodes = result in ["damage", "ux", "uy", "uz", "displacement", "displacement_norm", "displacement_matrix"]
         return self.Results_Reshape_values(values, nodeValues, storedOnNodes)
 
     def __indexResult(self, result: str) -> int:
